@@ -105,6 +105,21 @@ def lean_imports_closure(module):
     return seen
 
 
+def run_leanchecker(modules, jobs=8):
+    """thorough tier: replay the compiled declarations of the given project modules through Lean's independent re-checker
+    (`leanchecker`, ships with the toolchain). Returns a list of failures `module: message`."""
+    from concurrent.futures import ThreadPoolExecutor
+    def one(m):
+        rc, out = sh(['lake', 'env', 'leanchecker', m], cwd=LEAN, timeout=1800)
+        return m, rc, out
+    bad = []
+    with ThreadPoolExecutor(max_workers=jobs) as ex:
+        for m, rc, out in ex.map(one, sorted(modules)):
+            if rc != 0:
+                bad.append(f'{m}: leanchecker rc={rc}: {out.strip()[-300:]}')
+    return bad
+
+
 def run_audit(pid):
     """`#print axioms` for every theorem listed in Audit/<pid>.lean -> {theorem: [axioms]}"""
     rc, out = sh(['lake', 'env', 'lean', f'GmVerif/Audit/{pid}.lean'], cwd=LEAN, timeout=600)
